@@ -38,8 +38,8 @@ type c10Batch struct {
 var (
 	c10RetrySL = []string{"busy", "tmo", "garbage:chk", "garbage:noise", "garbage:len", "garbage:empty", "garbage:short", "garbage:reflect", "garbage:nomsg", "lost", "refused"}
 	c10TermSL  = []string{"ok", "cc:c1", "ccb:d4", "cc:ff", "trunc"}
-	c10RetryIn = []string{"busy", "tmo", "garbage:noise", "garbage:authmsg", "badsig", "garbage:chk", "garbage:short", "garbage:reflect"}
-	c10TermIn  = []string{"ok", "cc:c1", "ccb:d4", "cc:ff", "trunc", "lost", "refused"}
+	c10RetryIn = []string{"busy", "tmo", "garbage:noise", "garbage:authmsg", "badsig", "garbage:chk", "garbage:short", "garbage:reflect", "garbage:empty"}
+	c10TermIn  = []string{"ok", "cc:c1", "ccb:d4", "cc:ff", "trunc", "lost", "refused", "ok:signed-plain"}
 	c10CmdsSL  = []string{"sl-authcaps", "sl-guid", "sl-raw", "sl-dcmicap"}
 	c10CmdsIn  = []string{"devid", "authcaps", "chassis", "raw", "power", "getsdr"}
 	c10HSRetry = []string{"lost", "refused", "garbage:noise", "garbage:rmcp", "wrongtype", "garbage:len"}
@@ -307,7 +307,7 @@ func c10Run(run *ev.Run, se *ScriptEnv, sess *bmc.V2Session, o c10One) {
 		}
 		wantSends = i + 1
 		switch {
-		case oc == "ok":
+		case oc == "ok", oc == "ok:signed-plain":
 			wantCode, wantBody = 0, true
 		case oc == "lost", oc == "refused":
 			wantErr = true
